@@ -25,8 +25,8 @@ REPLCHAR == 65533           \* U+FFFD
 
 E == <<>>                   \* the empty string
 
-Drop(s, n) == SubSeq(s, n + 1, Len(s))
-Take(s, n) == SubSeq(s, 1, n)
+Drop(s, n) == IF n >= Len(s) THEN <<>> ELSE SubSeq(s, n + 1, Len(s))
+Take(s, n) == IF n >= Len(s) THEN s ELSE SubSeq(s, 1, n)
 
 \* index of the first occurrence of character c in s, 0 if none  (SelectInSeq is linear; a CHOOSE with a nested
 \* quantifier is quadratic and takes minutes on the multi-kilobyte lines of the INI checks)
